@@ -77,6 +77,29 @@ def gen_plan(seed, tier, idx):
         steps.insert(rng.randrange(len(steps) + 1),
                      {"op": "sensitivity", "len": L, "base": rng.getrandbits(64),
                       "api": rng.choice(["mnemonic_bits", "mnemonic_bits", "mnemonic_bits", "new_wallet"])})
+    # CONCURRENT CREATION: 2-3 caller threads create fresh wallets at the same time under the baton scheduler
+    # (pre-emption inside bip39 / base_wallet / helper code). Own PRNG: the rest of the plan is unchanged.
+    rng2 = random.Random((seed * 0x9E3779B1 + 0xC08C08) % 2 ** 64)
+    for _ in range(rng2.choice([1, 1, 2])):
+        ncl = rng2.choice([2, 2, 3])
+        same_len = rng2.random() < 0.6
+        L0 = rng2.choice(LENGTHS)
+        cl = [{"api": rng2.choice(["mnemonic_bits", "mnemonic_bits", "new_wallet", "from_entropy_bits", "paper_new"]),
+               "len": L0 if same_len else rng2.choice(LENGTHS), "password": "", "testnet": False} for _ in range(ncl)]
+        pol = rng2.choice(["bernoulli", "bernoulli", "atomic", "atomic", "publish", "access"])
+        sched = {"mode": "seeded", "policy": pol, "sched_seed": rng2.getrandbits(32)}
+        if pol == "bernoulli":
+            sched.update(p=rng2.choice([0.1, 0.3, 0.6]), p_op=0.5)
+        elif pol == "atomic":
+            m_ = rng2.choice([1, 2, 3, 5])
+            sched.update(mod=m_, res=rng2.randrange(m_), k=rng2.choice([1, 1, 2]))
+        elif pol == "publish":
+            sched.update(k=rng2.choice([1, 2]))
+        else:
+            m_ = rng2.choice([1, 2])
+            sched.update(k=rng2.choice([1, 2]), mod=m_, res=rng2.randrange(m_))
+        steps.insert(rng2.randrange(len(steps) + 1), {"op": "concurrent", "clients": cl, "rounds": rng2.choice([1, 2]),
+                                                       "sched": sched, "opcode": pol == "access" or rng2.random() < 0.3})
     steps.append({"op": "env_replay"})
     return {"property": "C08", "seed": seed, "config": {}, "device_key": "c08-%d" % seed, "steps": steps}
 
@@ -352,6 +375,86 @@ def _run_child(plan):
                      "bit_positions_tested": len(positions), "positions_whose_flip_changes_the_wallet": sensitive,
                      "needed": need, "dead_positions_from_first_served_bit": dead[:24]})
             events.append([si, op, L, n_served, sensitive])
+        elif op == "concurrent":
+            if device.fault is not None:
+                continue
+            import threading
+            import btc_hd_wallet
+            import btc_hd_wallet.__main__  # noqa: every module of the package loaded
+            from sim.sched import Baton, library_code_objects
+            d_ = os.path.dirname(btc_hd_wallet.__file__)
+            files = [os.path.join(d_, n_ + ".py") for n_ in ("bip39", "base_wallet", "paper_wallet", "helper")]
+            fs = st["clients"]
+            ncl = len(fs)
+            bt = Baton(ncl, st["sched"], {f_: 1.0 for f_ in files}, files[:2] if st.get("opcode") else [], 30000)
+            bt.install(library_code_objects(d_))
+            results = []
+
+            def mk(c):
+                def body():
+                    for rnd in range(st.get("rounds", 1)):
+                        tag = "s%d.c%d.%d" % (si, c, rnd)
+                        bt.next_obj[c], bt.next_kind[c] = "entropy", "fresh"
+                        bt.begin_op(c, tag)
+                        bt.yield_point(c, "op", is_op=True)
+                        bt.op_in_flight[c] = ("fresh", "entropy")
+                        device.thread_tags[threading.get_ident()] = tag
+                        try:
+                            mn_, exc_ = _do_fresh(fs[c], device, None), None
+                        except Exception as e:
+                            mn_, exc_ = None, type(e).__name__
+                        finally:
+                            device.thread_tags.pop(threading.get_ident(), None)
+                            bt.op_in_flight[c] = None
+                        results.append((tag, c, mn_, exc_))
+                return body
+            try:
+                bt.run_clients([mk(c) for c in range(ncl)])
+            finally:
+                bt.uninstall()
+            if bt.errors:
+                raise core.HarnessError("concurrent step: %s" % bt.errors[0])
+            nsw = len([e for e in bt.log if e[0] == "s"])
+            stats["concurrent_steps"] = stats.get("concurrent_steps", 0) + 1
+            stats["concurrent_switches"] = stats.get("concurrent_switches", 0) + nsw
+            stats["concurrent_wallets"] = stats.get("concurrent_wallets", 0) + len(results)
+            results.sort()
+            wins_here = []
+            for tag, c, mn_, exc_ in results:
+                f = fs[c]
+                got = sum(r[0] for r in device.requests if r[1] == tag and r[3] == "ok")
+                if mn_ is None:
+                    add("C08/fresh-request-failed-without-fault",
+                        {"clause": "liveness", "api": f["api"], "after_fault": False, "concurrent": True},
+                        {"step": si, "fresh": f, "exception": exc_, "clients": ncl, "switches": nsw})
+                    continue
+                nwords = len(mn_.split(" "))
+                if got * 8 < 32 * nwords // 3 or nwords != f["len"]:
+                    add("C08/too-few-bits-from-os-source",
+                        {"clause": "request-size", "api": f["api"], "device_faulted": False, "concurrent": True},
+                        {"step": si, "fresh": f, "bytes_obtained_from_device_by_this_caller": got,
+                         "entropy_bits_needed": 32 * nwords // 3, "words": nwords, "clients": ncl, "switches": nsw})
+                if mn_ in seen:
+                    add("C08/fresh-wallets-coincide", {"clause": "no-two-coincide", "api": f["api"], "concurrent": True},
+                        {"step": si, "first_seen_at_step": seen[mn_], "fresh": f, "clients": ncl, "switches": nsw,
+                         "note": "two callers creating wallets at the same time got the same wallet"})
+                seen[mn_] = si
+                try:
+                    ent_ = cm.entropy_from_mnemonic(mn_, widx)
+                except Exception:
+                    continue
+                v_ = int.from_bytes(ent_, "big")
+                w_ = set((v_ >> k) & ((1 << 48) - 1) for k in range(0, len(ent_) * 8 - 47))
+                for (otag, ow) in wins_here:
+                    if len(w_) > 40 and len(ow) > 40 and (w_ & ow):
+                        add("C08/consecutive-wallets-share-entropy",
+                            {"clause": "entropy-reused-across-wallets", "api": f["api"], "concurrent": True},
+                            {"step": si, "fresh": f, "shared_48_bit_windows": len(w_ & ow), "other_caller": otag,
+                             "note": "a run of >= 48 entropy bits of a wallet created concurrently by another caller "
+                                     "re-appears in this one", "clients": ncl, "switches": nsw})
+                        break
+                wins_here.append((tag, w_))
+            events.append([si, op, [r_[2] for r_ in results], nsw])
         elif op == "env_replay":
             # adaptive: every environment variable the code was seen to consult during a fresh-wallet request is
             # planted with a truthy value and the requests are repeated under the same oracle
@@ -473,6 +576,10 @@ class EntropySim(Simulator):
                 p["steps"] = plan["steps"][:i] + [dict(s, fresh={"api": "mnemonic_bits", "len": f["len"]})] + plan["steps"][i + 1:]
                 yield p
 
+    def secondary_backends(self, prop, tier):
+        # interpreter configuration: the same simulator under `python -O` (assert statements stripped)
+        return [("ecdsa-O", 120, None)] if tier == "quick" else [("ecdsa-O", None, 60)]
+
     def quick_runs(self, prop):
         return int(os.environ.get("VERIF_C08_RUNS", "640"))
 
@@ -484,7 +591,9 @@ class EntropySim(Simulator):
                 "(mnemonic_from_entropy_bits, BaseWallet.new_wallet, from_entropy_bits, PaperWallet.new_wallet, CLI `new`) "
                 "interleaved with environment events (process-wide PRNG seed/setstate, clock freeze/jump, device epoch "
                 "change, device faults (EIO, NotImplementedError, EAGAIN/EINTR once, EPERM, EACCES, ENOENT, ENOSYS, EMFILE) on and off, fork twins with different vs. identical device "
-                "streams, PRNG-reset-and-repeat) plus statistical batches of 64 fresh mnemonics per length. Non-trivial = "
+                "streams, PRNG-reset-and-repeat) plus statistical batches of 64 fresh mnemonics per length, bit-sensitivity "
+                "tests, and 1-2 CONCURRENT-CREATION steps (2-3 caller threads creating wallets at the same time under the "
+                "seeded baton scheduler, device requests booked per caller). Non-trivial = "
                 ">=2 successful fresh wallets and at least one fault, twin or PRNG reset; distinct by digest of all "
                 "mnemonics/events (device stream is keyed by the run seed).")
 
@@ -496,7 +605,10 @@ class EntropySim(Simulator):
                 "prng_reset_to_seen_state": st.get("prng_resets", 0),
                 "clock_freeze_or_jump": st.get("clock_events", 0),
                 "fork_twin_diff_device": st.get("twins", {}).get("diff_device", 0),
-                "fork_twin_same_device": st.get("twins", {}).get("same_device", 0)}),
+                "fork_twin_same_device": st.get("twins", {}).get("same_device", 0),
+                "concurrent_creation_steps": st.get("concurrent_steps", 0),
+                "context_switches_inside_concurrent_creation": st.get("concurrent_switches", 0),
+                "wallets_created_concurrently": st.get("concurrent_wallets", 0)}),
             "fresh_wallets": st.get("fresh_ok", 0),
             "identity_mapping_informational": "%d/%d fresh wallets had entropy == first bytes served by the device"
                                               % (st.get("identity_mapping_held", 0), st.get("identity_mapping_checked", 0)),
@@ -524,7 +636,9 @@ class EntropySim(Simulator):
     def stub_components(self, prop):
         return ["OS entropy source: random._urandom, os.urandom, os.getrandom, open('/dev/urandom') served by a deterministic "
                 "device with fault states", "time.time/monotonic/perf_counter/... and os.getpid pinned",
-                "the process-wide Mersenne Twister state (set by plan events)"]
+                "the process-wide Mersenne Twister state (set by plan events)",
+                "thread choice during concurrent-creation steps: baton scheduler (sim/sched.py), real threads parked and "
+                "released one at a time at sys.monitoring LINE/INSTRUCTION events in the package's code"]
 
     def assumptions(self, prop):
         return ["the repository's word list is used only as a bijection to decode mnemonics (whether it is the official list "
